@@ -109,6 +109,122 @@ theorem sat_same_type (op : COp) (c v : Val F) (hv : v ≠ .blank) (hc : ∀ x, 
     sat (.cmp op c) v = false := by
   cases v <;> cases c <;> simp_all [sat, typeId, blankText, numView]
 
+
+/-! ### exact match on the whole key vector, criteria in closed form -/
+
+/-- the value MATCH searches for: a blank reads `0`, text is upper-cased -/
+def matchKey (val : Val F) : Val F := upperVal (match val with | .blank => .num Num.zero | x => x)
+
+/-- the test of an exact match: the wildcard pattern for text with wildcards, equality otherwise -/
+def exactTest (v : Val F) (x : Val F) : Bool :=
+  match v with
+  | .text s =>
+    if hasWild s.toList then (match x with | .text t => wmatch (parsePat s.toList) t.toList | _ => false)
+    else eqLook x v
+  | _ => eqLook x v
+
+/-- a key takes part when it has the type of the value and passes the test -/
+def exactHit (v k : Val F) : Bool := decide (typeId (upperVal k) = typeId v) && exactTest v (upperVal k)
+
+theorem matchPos_exact (val : Val F) (keys : List (Val F)) :
+    matchPos 0 val keys =
+      if keys.all (fun k => !exactHit (matchKey val) k) then none
+      else some (1 + (keys.takeWhile fun k => !exactHit (matchKey val) k).length) := by
+  have key : ∀ v : Val F,
+      scanFirst (exactTest v) ((indexed (keys.map upperVal)).filter fun p => decide (typeId p.2 = typeId v)) =
+      if keys.all (fun k => !exactHit v k) then none
+      else some (1 + (keys.takeWhile fun k => !exactHit v k).length) := by
+    intro v
+    have := scanFirst_filter_spec (exactTest v) (fun x => decide (typeId x = typeId v)) (keys.map upperVal) 1
+    simp only [indexed, this, List.all_map, List.takeWhile_map, List.length_map]
+    rfl
+  rw [← key]
+  unfold matchPos matchKey
+  simp only [Int.lt_irrefl, if_false, gt_iff_lt]
+  cases hv : upperVal (match val with | .blank => .num Num.zero | x => x) with
+  | text s =>
+    by_cases hw : hasWild s.toList = true
+    · simp only [hw, if_true]; congr 1; funext x; cases x <;> simp [exactTest, hw]
+    · have hw' : hasWild s.toList = false := by simpa using hw
+      simp only [hw', Bool.false_eq_true, if_false]; congr 1; funext x; simp [exactTest, hw']
+  | num x => simp only []; congr 1
+  | bool b => simp only []; congr 1
+  | err e => simp only []; congr 1
+  | blank => simp only []; congr 1
+
+/-- **first equal element**: the position returned by an exact match holds a key of the value's type
+that passes the test, and no earlier position does -/
+theorem matchPos_exact_first (val : Val F) (keys : List (Val F)) (p : Nat) (h : matchPos 0 val keys = some p) :
+    1 ≤ p ∧ (∃ k, keys[p - 1]? = some k ∧ exactHit (matchKey val) k = true) ∧
+    ∀ i k, i < p - 1 → keys[i]? = some k → exactHit (matchKey val) k = false := by
+  rw [matchPos_exact] at h
+  split at h
+  · cases h
+  · rename_i hall
+    have hall' : keys.all (fun k => !exactHit (matchKey val) k) = false := by simpa using hall
+    obtain ⟨⟨k, hk1, hk2⟩, hbefore⟩ := takeWhile_first (fun k => !exactHit (matchKey val) k) keys hall'
+    simp only [Option.some.injEq] at h
+    subst h
+    refine ⟨by omega, ⟨k, ?_, by simpa using hk2⟩, ?_⟩
+    · simpa using hk1
+    · intro i k' hi hk'
+      have := hbefore i k' (by omega) hk'
+      simpa using this
+
+/-- no position at all exactly when no key of the value's type passes the test (`#N/A`) -/
+theorem matchPos_exact_none (val : Val F) (keys : List (Val F)) :
+    matchPos 0 val keys = none ↔ ∀ k ∈ keys, exactHit (matchKey val) k = false := by
+  rw [matchPos_exact]
+  split
+  · rename_i hall
+    simp only [true_iff]
+    intro k hk
+    have := (List.all_eq_true.mp hall) k hk
+    simpa using this
+  · rename_i hall
+    simp only [reduceCtorEq, false_iff]
+    intro hno
+    apply hall
+    rw [List.all_eq_true]
+    intro k hk
+    simp [hno k hk]
+
+/-- the selection of SUMIF / AVERAGEIF in closed form: the partners of the elements that satisfy the criterion, in order -/
+theorem selected_eq_filter (k : Crit F) (test operate : List (Val F)) :
+    selected k test operate = ((test.zip operate).filter fun p => sat k p.1).map Prod.snd := by
+  unfold selected
+  induction test.zip operate with
+  | nil => rfl
+  | cons p l ih =>
+    obtain ⟨t, o⟩ := p
+    by_cases h : sat k t = true <;> simp [h, ih]
+
+theorem selected_self (k : Crit F) (test : List (Val F)) :
+    selected k test test = test.filter (sat k) := by
+  induction test with
+  | nil => rfl
+  | cons t l ih =>
+    have := ih
+    unfold selected at *
+    by_cases h : sat k t = true <;> simp [h, this]
+
+theorem selected_none (k : Crit F) (test operate : List (Val F)) (h : ∀ t ∈ test, sat k t = false) :
+    selected k test operate = [] := by
+  rw [selected_eq_filter]
+  simp only [List.map_eq_nil_iff, List.filter_eq_nil_iff]
+  intro p hp
+  have := h p.1 (List.of_mem_zip hp).1
+  simp [this]
+
+theorem averageIf_none (crit : Val F) (test operate : List (Val F))
+    (h : ∀ t ∈ test, sat (parseCrit crit) t = false) : averageIf crit test operate = .err .div0 := by
+  simp [averageIf, selected_none _ _ _ h, firstErr]
+
+/-- COUNTIF is the length of the selection of the tested range itself -/
+theorem countif_eq_selected_length (crit : Val F) (test : List (Val F)) :
+    countIf crit test = .num (natToF (selected (parseCrit crit) test test).length) := by
+  rw [selected_self]; rfl
+
 /-! ### non-vacuity -/
 section Example
 
@@ -131,6 +247,12 @@ open XL.C02 in
 example : matchPos 1 (.num 25 : Val Int) [.num 10, .num 20, .num 30] = some 2 ∧
     matchPos 0 (.text "b*" : Val Int) [.text "a", .num 3, .text "Bcd"] = some 3 ∧
     matchPos (-1) (.num 25 : Val Int) [.num 30, .num 20] = some 1 := by decide +kernel
+
+open XL.C02 in
+example : matchPos 0 (.num 3 : Val Int) [.text "3", .num 3, .num 3] = some 2 ∧
+    exactHit (matchKey (.num 3 : Val Int)) (.num 3) = true ∧ exactHit (matchKey (.num 3 : Val Int)) (.text "3") = false ∧
+    selected (parseCrit (.text ">1" : Val Int)) [.num 1, .num 2, .num 3] [.num 10, .num 20, .num 30] = [.num 20, .num 30] ∧
+    averageIf (.text ">5" : Val Int) [.num 1, .num 2] [.num 1, .num 2] = .err .div0 := by decide +kernel
 
 example : wmatch (parsePat "A?C*".toList) "ABCDE".toList = true ∧ wmatch (parsePat "A?".toList) "ABC".toList = false ∧
     wmatch (parsePat "A~*".toList) "A*".toList = true := by decide +kernel
